@@ -140,6 +140,9 @@ func runWrapper(in qinput) *qrun {
 		}
 		r.events = append(r.events, ev)
 		r.obs = append(r.obs, qobs{Len: n, Item: item})
+		if ev.Ev == "arrive" || ev.Ev == "forget" {
+			r.obs[len(r.obs)-1].Last = r.lastObs()
+		}
 	}
 	// bookkeeping of one AddRateLimited answered with delay r.lastD at instant t
 	noteAdd := func(t int64, item int) {
@@ -232,6 +235,9 @@ func runWrapper(in qinput) *qrun {
 				}
 				r.adds = append(r.adds, [2]int64{int64(i), at})
 				rec(qevent{T: at, Ev: "arrive", Item: i}, -1, false)
+			} else {
+				// process: Forget(item), then the deferred Done(item)
+				rec(qevent{T: at, Ev: "forget", Item: i}, -1, false)
 			}
 			r.tw.proc = false
 			if r.tw.dirty[i] {
@@ -320,9 +326,26 @@ func woracle(r *qrun, maxD int64) (key, what string) {
 				ok = true
 			}
 		}
-		// a run that started at the very instant of the add, before it in the history, does not count
 		if !ok {
 			return "dropped", fmt.Sprintf("item %d added at %s was never handed to the callback afterwards (callback starts of that item: %v)", a[0], dur(a[1]), durs(perKind[a[0]]))
+		}
+	}
+	// bounded wait: the callback starts no later than max(wait, interval) after the request,
+	// plus the callbacks the single worker may still have to finish
+	bound := r.delta
+	if r.in.WaitNs > bound {
+		bound = r.in.WaitNs
+	}
+	bound += int64(r.in.Items) * maxD
+	for _, a := range r.adds {
+		ok := false
+		for _, s := range perKind[a[0]] {
+			if s >= a[1] && s <= a[1]+bound {
+				ok = true
+			}
+		}
+		if !ok && maxD < r.delta {
+			return "bounded-wait", fmt.Sprintf("item %d added at %s was handed to the callback later than %s afterwards (callback starts: %v)", a[0], dur(a[1]), dur(bound), durs(perKind[a[0]]))
 		}
 	}
 	if r.in.Items == 1 && maxD < r.delta {
@@ -365,6 +388,8 @@ func genWrapper(rng *rand.Rand) qinput {
 
 func wcorpus() []qinput {
 	return []qinput{
+		// the same through the wrapper: Get -> callback (150 ms) -> Forget -> Done
+		{Wrapper: true, Kind: kReload, IntervalNs: 600 * ms, Items: 1, Gaps: []int64{0, 80 * ms, 570 * ms}, Durations: []int64{150 * ms}, Ties: []int{0, 0, 0}},
 		// a reload request arriving while a reload is running must lead to another reload:
 		// interval 300 ms, callback 150 ms, requests at 0 and 80 ms -> reloads at 0 and 300 ms
 		{Wrapper: true, Kind: kReload, IntervalNs: 300 * ms, Items: 1, Gaps: []int64{0, 80 * ms}, Durations: []int64{150 * ms}, Ties: []int{0, 0}},
